@@ -19,6 +19,7 @@ type boundAccess struct {
 	X     ssa.Value
 	Need  int64
 	Desc  string
+	Tail  ssa.Value // for x[len(x)-k]: the difference itself (a test `len(x)-k >= 0` guards it as well)
 }
 
 func isSliceOrString(t types.Type) bool {
@@ -33,6 +34,16 @@ func isSliceOrString(t types.Type) bool {
 
 // tailOffset: b is len(x)-k for a positive constant k (the k-th element from the end).
 func tailOffset(b, x ssa.Value) (int64, bool) {
+	k, _, ok := tailOffsetV(b, x)
+	return k, ok
+}
+
+func tailOffsetV(b, x ssa.Value) (int64, ssa.Value, bool) {
+	k, ok := tailOffset0(b, x)
+	return k, b, ok
+}
+
+func tailOffset0(b, x ssa.Value) (int64, bool) {
 	bo, ok := b.(*ssa.BinOp)
 	if !ok || bo.Op != token.SUB {
 		return 0, false
@@ -62,6 +73,7 @@ func constBoundAccesses(fn *ssa.Function) []boundAccess {
 			}
 			need := int64(0)
 			tail := int64(0)
+			var tailV ssa.Value
 			for _, b := range []ssa.Value{x.Low, x.High, x.Max} {
 				if b == nil {
 					continue
@@ -70,34 +82,34 @@ func constBoundAccesses(fn *ssa.Function) []boundAccess {
 					need = v
 				}
 				if k, ok := tailOffset(b, x.X); ok && k > tail {
-					tail = k
+					tail, tailV = k, b
 				}
 			}
 			if need > 0 {
-				out = append(out, boundAccess{in, x.X, need, fmt.Sprintf("slice [%s:%s]", valStr(x.Low), valStr(x.High))})
+				out = append(out, boundAccess{in, x.X, need, fmt.Sprintf("slice [%s:%s]", valStr(x.Low), valStr(x.High)), nil})
 			}
 			if tail > 0 {
-				out = append(out, boundAccess{in, x.X, tail, fmt.Sprintf("slice bound len-%d", tail)})
+				out = append(out, boundAccess{in, x.X, tail, fmt.Sprintf("slice bound len-%d", tail), tailV})
 			}
 		case *ssa.IndexAddr:
 			if _, ok := x.X.Type().Underlying().(*types.Slice); !ok {
 				return
 			}
 			if v, isC := constInt(x.Index); isC && v >= 0 {
-				out = append(out, boundAccess{in, x.X, v + 1, fmt.Sprintf("index [%d]", v)})
+				out = append(out, boundAccess{in, x.X, v + 1, fmt.Sprintf("index [%d]", v), nil})
 			}
 			if k, ok := tailOffset(x.Index, x.X); ok {
-				out = append(out, boundAccess{in, x.X, k, fmt.Sprintf("index [len-%d]", k)})
+				out = append(out, boundAccess{in, x.X, k, fmt.Sprintf("index [len-%d]", k), x.Index})
 			}
 		case *ssa.Index:
 			if !isSliceOrString(x.X.Type()) {
 				return
 			}
 			if v, isC := constInt(x.Index); isC && v >= 0 {
-				out = append(out, boundAccess{in, x.X, v + 1, fmt.Sprintf("index [%d]", v)})
+				out = append(out, boundAccess{in, x.X, v + 1, fmt.Sprintf("index [%d]", v), nil})
 			}
 			if k, ok := tailOffset(x.Index, x.X); ok {
-				out = append(out, boundAccess{in, x.X, k, fmt.Sprintf("index [len-%d]", k)})
+				out = append(out, boundAccess{in, x.X, k, fmt.Sprintf("index [len-%d]", k), x.Index})
 			}
 		}
 	})
@@ -222,7 +234,12 @@ func boundsRule(c *Ctx, r *Report, rule string, what string, roots ...string) {
 					return ok && vpath(st.Addr) == place && freshLenAtLeast(st.Val, need)
 				}
 			}
-			p := ReachTargetAvoiding(fn, a.Instr, lenGuardsFull(a.X, a.Need), fresh)
+			gs := lenGuardsFull(a.X, a.Need)
+			if a.Tail != nil {
+				tv := a.Tail
+				gs = append(gs, cmpGuards("len(x)-k >= 0", func(v ssa.Value) bool { return v == tv }, func(x int64) bool { return x >= 0 }, 0)...)
+			}
+			p := ReachTargetAvoiding(fn, a.Instr, gs, fresh)
 			if p != nil && minLenAt(fn, a.X, a.Instr, a.Need) >= a.Need {
 				p = nil // the length tests on the way accumulate to the bound (e.g. len != 0 and len != 1)
 			}
